@@ -340,6 +340,32 @@ fn main() {
             }
         }
     }
+    // long item sequences: lengths around the powers of two a size threshold would sit at (a buffer
+    // that is refilled, reallocated or drained in blocks), reduced configuration grid
+    {
+        let lens = tu_verif::enumerate::threshold_lengths(run.pick(8, 10));
+        run.bounds.insert("long_sequences".into(), json!(format!("lengths {lens:?} x size patterns [1], [1,2,3,0,5], [5,0] x 4 modes x prefetch {{1, 3}} x limits {{1, 3, 6, 64, usize::MAX}} x both limit types x seeds 0..2 when shuffling")));
+        for (k, n) in lens.iter().enumerate() {
+            if !run.unit((2 * all.len() + k) as u64) {
+                continue;
+            }
+            for pat in [&[1usize][..], &[1, 2, 3, 0, 5][..], &[5, 0][..]] {
+                let sizes: Vec<usize> = (0..*n).map(|i| pat[i % pat.len()]).collect();
+                for mode in 0..4u32 {
+                    for prefetch in [1usize, 3] {
+                        for limit in [1usize, 3, 6, 64, usize::MAX] {
+                            for padded in [false, true] {
+                                for seed in 0..(if mode & 2 != 0 { 2 } else { 1 }) {
+                                    let c = Cfg { sort: mode & 1 != 0, shuffle: mode & 2 != 0, prefetch, limit, padded, seed, hint: 0 };
+                                    check(&mut run, &mut st, &sizes, &c);
+                                }
+                            }
+                        }
+                    }
+                }
+            }
+        }
+    }
     for (i, name) in ["plain", "sort", "shuffle", "sort+shuffle"].iter().enumerate() {
         run.count_n(&format!("cases mode={name}"), st.mode[i]);
     }
